@@ -48,7 +48,9 @@ def constructor_rules(ctx, prog):
         ok = st.copy()
         if any(n in ("stdin", "stdout", "stderr") for n in names):
             ok.res[tok] = ("maybe-closed",)
-        return [(with_errno(st, fs(I.abs_int(9))), fs(-1)), (ok, fs(tok))]
+        bad = with_errno(st, fs(I.abs_int(9)))
+        bad.mon["no_parent_stream"] = tok          # fileno() itself says the stream has no descriptor
+        return [(bad, fs(-1)), (ok, fs(tok))]
 
     def m_open_rec(I, fn, n, args, st):
         outs = m_open(I, fn, n, args, st)
@@ -131,6 +133,13 @@ def constructor_rules(ctx, prog):
                         acc = one(op[1])
                         ok = ok and is_int_(acc) and (acc & 3) == (0 if stream == "IN" else 1)
                     what = "the null device when the parent has no such stream (and the handle is then owned: type recorded as discard)"
+                    ptok = ("ext", "fileno(%s)" % STDFILE[stream])
+                    absent = st.mon.get("no_parent_stream") == ptok or st.res.get(ptok, ("?",))[0] == "closed"
+                    ctx.ob("C10.W2d", "redirect_parent [stream=%s]: fallback" % stream, "the null device replaces the parent's stream only when "
+                           "the parent has none (fileno failed, or a probe found the descriptor closed) - an open descriptor of the parent, "
+                           "whatever its flags, is the stream the child must get", absent,
+                           {"parent_descriptor_state": st.res.get(ptok, ("not probed",))[0], "fileno_failed": st.mon.get("no_parent_stream") == ptok},
+                           nontrivial=True)
             elif typ in ("DISCARD", "PATH"):
                 op = st.res.get(("opened", ct))
                 path = fs(("str", "/dev/null")) if typ == "DISCARD" else fs(("str", "<user path>"))
